@@ -395,6 +395,35 @@ def run(ctx, rep):
             elif binlvl:
                 rep.violation("C17.types", "question-precedence", "the postfix `?` is consumed in %s, the same loop that handles `+`/`*`: "
                               "`A * B?` is read as `(A * B)?` although the printer means `A * (1 + B)`" % fm.short(binlvl[0]), F.fns[binlvl[0]].where())
+            # repetition: the printer emits one un-parenthesised `?` per option node while walking the type, so
+            # `1 + (1 + A)` is printed `A??`; the reader must accept the postfix repeatedly (a loop around the site
+            # that consumes Token::Question, or a function that calls itself after consuming it)
+            emit_in_loop = False
+            Tfd = Terms(fd)
+            for b in fd.rpo():
+                t = fd.blocks[b]["t"]
+                if t["k"] == "call" and t["f"].get("name") == "write_str" and any(Tfd.operand(o) == ("str", "?") or Tfd.operand(o)[:2] == ("str", "?") for o in t["args"]):
+                    emit_in_loop = emit_in_loop or fd.in_loop(b)
+            if emit_in_loop and lvl:
+                rep_ok = False
+                where = None
+                for p in lvl:
+                    pf = F.fns[p]
+                    for b in pf.rpo():
+                        t = pf.blocks[b]["t"]
+                        sites = t["k"] == "call" and any("Question" in _token_consts(o) for o in t["args"])
+                        for s in pf.blocks[b]["s"]:
+                            if s[0] == "=" and any("Question" in _token_consts(o) for o in _ops(s[2])):
+                                sites = True
+                        if sites:
+                            where = pf.where()
+                            if pf.in_loop(b) or any((c.callee or "") == pf.path for c in pf.calls()):
+                                rep_ok = True
+                if rep_ok:
+                    rep.ok("C17.types", "postfix ? is accepted repeatedly", None)
+                else:
+                    rep.violation("C17.types", "question-repeat", "the type printer writes one `?` per nested option (`1 + (1 + A)` is printed `A??`) "
+                                  "but the parser consumes the postfix `?` at most once per operand", where)
         for e in sorted(emitted):
             txt = e.replace("×", "*")
             if e == "2^{}":
